@@ -124,7 +124,7 @@ func (s *ImmuServer) TxSQLExec(ctx context.Context, request *schema.SQLExecReque
 		return new(empty.Empty), err
 	}
 
-	if err := s.checkTxDatabase(ctx, tx.Database()); err != nil {
+	if err := s.checkTxDatabase(ctx, tx.Database(), "SQLExec"); err != nil {
 		return new(empty.Empty), err
 	}
 
@@ -150,7 +150,7 @@ func (s *ImmuServer) TxSQLQuery(req *schema.SQLQueryRequest, srv schema.ImmuServ
 		return err
 	}
 
-	if err := s.checkTxDatabase(srv.Context(), tx.Database()); err != nil {
+	if err := s.checkTxDatabase(srv.Context(), tx.Database(), "SQLQuery"); err != nil {
 		return err
 	}
 
@@ -163,15 +163,16 @@ func (s *ImmuServer) TxSQLQuery(req *schema.SQLQueryRequest, srv schema.ImmuServ
 	return s.streamRows(srv.Context(), reader, tx.Database().MaxResultSize(), srv.Send)
 }
 
-// checkTxDatabase: statements are authorized against the database the session is currently using,
+// checkTxDatabase: statements are authorized against the database the session is currently using
+// (permission for the corresponding non-transactional method, system database guard included),
 // so a transaction can only be used while the session is still on the database it was created on
-func (s *ImmuServer) checkTxDatabase(ctx context.Context, txDB database.DB) error {
-	sess, err := s.SessManager.GetSessionFromContext(ctx)
+func (s *ImmuServer) checkTxDatabase(ctx context.Context, txDB database.DB, methodName string) error {
+	db, err := s.getDBFromCtx(ctx, methodName)
 	if err != nil {
 		return err
 	}
 
-	if sess.GetDatabase().GetName() != txDB.GetName() {
+	if db.GetName() != txDB.GetName() {
 		return ErrTxDatabaseMismatch
 	}
 
